@@ -719,7 +719,7 @@ package forwarder
 //@   requires g != nil
 //@   modifies *
 //@   serves C20 C07
-//@   at call Close~g.ps.Close:
+//@   at call perio.Server.Close:
 //@     assume [A-CLOSEONCE] !closed(recv.evtCh)
 
 //@ func NewDriver(wg *sync.WaitGroup, cfg *factory.Config) (d Driver, err error)
